@@ -197,7 +197,10 @@ def run_impl(spec, rng_seed):
             except Exception as e:
                 r2 = {"err": type(e).__name__, "msg": str(e)[:200]}
             same_lp = o1["lp"] == obs0["lp"] and o1["lp_direction"] == obs0["lp_direction"]
-            opt_bad = same_lp and not same_opt(opt0, opt1)
+            # objective coefficients below the solver's dual tolerance: the simplex stops wherever the reduced costs are
+            # "zero", the value it reports depends on the starting basis and is no function of the LP -- not compared
+            tiny = any(0 < abs(r.objective_coefficient) < 1e-6 for r in model.reactions)
+            opt_bad = same_lp and not tiny and not same_opt(opt0, opt1)
             trips.append((tag, {"ok": o1}, r2, opt_bad))
         out["trips"] = trips
         after = M.observe(model)
